@@ -10,6 +10,9 @@ CHECKS = {
     'C03': p_exec.c03,
     'C04': p_exec.c04,
     'C14': p_exec.c14,
+    'C08': p_exec.c08,
+    'C09': p_exec.c09,
+    'C10': p_exec.c10,
 }
 
 # properties whose thorough tier also runs the release build of the harness
